@@ -87,6 +87,8 @@ pub enum CS {
     Generated(String, bool),
     Comment(String),
     Extra(String),
+    /// Postgres `ALTER COLUMN .. TYPE .. USING (col + k)`; nothing anywhere else
+    Using(i64),
 }
 
 #[derive(Clone, Debug, PartialEq)]
@@ -502,6 +504,9 @@ impl Col {
                 CS::Extra(w) => {
                     c.extra(w.as_str());
                 }
+                CS::Using(k) => {
+                    c.using(Expr::col(a(&self.name)).add(*k));
+                }
             }
         }
         c
@@ -596,7 +601,16 @@ impl Fk {
             fk.name(n.as_str());
         }
         // the column lists accumulate over from()/to() (table + column) and from_col()/to_col() calls
-        match crate::apply::route(3) {
+        match crate::apply::route(4) {
+            // the column lists given as tuples of two or three names
+            3 if self.cols.len() == 2 && self.ref_cols.len() == 2 => {
+                fk.from(tref(table), (a(&self.cols[0]), a(&self.cols[1])));
+                fk.to(tref(&self.ref_table), (a(&self.ref_cols[0]), a(&self.ref_cols[1])));
+            }
+            3 if self.cols.len() == 3 && self.ref_cols.len() == 3 => {
+                fk.from(tref(table), (a(&self.cols[0]), a(&self.cols[1]), a(&self.cols[2])));
+                fk.to(tref(&self.ref_table), (a(&self.ref_cols[0]), a(&self.ref_cols[1]), a(&self.ref_cols[2])));
+            }
             0 if self.cols.len() == self.ref_cols.len() => {
                 // pair by pair
                 for (c, r) in self.cols.iter().zip(&self.ref_cols) {
